@@ -1,4 +1,4 @@
-// C06: write() then read() restores the complete observable state of a grid (binary format; ASCII runs as an un-counted concrete sanity pass).
+// C06: write() then read() restores the complete observable state of a grid (binary and ASCII format; the shadows of the doubles travel on the byte / token tape of engine B).
 // args: <grid spec> <history> <binary 1/0>
 //  history: 0 fresh | 1 loaded | 2 loaded + pending refinement | 3 active construction (loaded + parked samples) | 4 empty grid | 5 loaded + conformal map | 6 merged refinement + coefficient overwrite
 //           8 loaded + pending updateGrid(depth+1) (the numbers of active tensors before and after differ)
@@ -14,6 +14,10 @@ static void same(const Obs &r, const Obs &o, const char *stage){
   fpsym_check(r.coords == o.coords, (s + ": loaded and needed points (in order), transform and weights restored").c_str());
   fpsym_check(r.outdep.size() == o.outdep.size(), (s + ": number of values / coefficients restored").c_str());
   if (r.outdep.size() == o.outdep.size()) for (size_t i=0;i<r.outdep.size();i++) fpsym_ident(r.outdep[i], o.outdep[i], (s + ": values, coefficients, surrogate and integrals restored (same expression)").c_str());
+  // the numbers themselves travel exactly in both formats (binary: raw bytes; ASCII: 17 significant digits): on the explored run the
+  // restored observables are bit-for-bit those of the source (an expression identity alone would not see a loss of digits)
+  if (r.outdep.size() == o.outdep.size()){ size_t bad = 0; for (size_t i=0;i<r.outdep.size();i++){ double a = fpsym_concrete(r.outdep[i]), b = fpsym_concrete(o.outdep[i]); if (!(a == b) && !(a != a && b != b)) bad++; }
+    fpsym_check(bad == 0, (s + ": values, coefficients, surrogate and integrals restored bit-for-bit on this run").c_str()); }
 }
 
 int main(int argc, char **argv){
@@ -21,7 +25,7 @@ int main(int argc, char **argv){
   int d = g.dims, outs = g.outputs;
   if (outs == 0 && history != 4) history = 0;   // a grid without outputs has no values to load or refine on
   TasmanianSparseGrid grid;
-  SymModel model(outs, 1000, -1.0, 1.0, binary && g.family != "wavelet");   // ASCII: libstdc++ number formatting is not encoded, concrete values only
+  SymModel model(outs, 1000, -1.0, 1.0, g.family != "wavelet");   // ASCII: the shadows travel on the token tape of engine B (operator<< / operator>> of double)
   std::vector<double> probe; for (int p=0;p<2;p++) for (int j=0;j<d;j++){ double lo = g.transform ? g.ta[j] : (g.family == "fourier" ? 0.0 : -1.0), hi = g.transform ? g.tb[j] : 1.0; probe.push_back(lo + (0.23 + 0.41 * p + 0.06 * j) * (hi - lo)); }
   if (history != 4) makeGrid(grid, g);
   bool local = grid.isLocalPolynomial() || grid.isWavelet();
